@@ -347,6 +347,11 @@ class StreamReader:
             set_result(waiter, None)
 
     async def _wait(self, func_name: str) -> None:
+        # An error recorded while this reader was running (e.g. by a
+        # re-entrant refill from _read_nowait_chunk) must not be slept on.
+        if self._exception is not None:
+            raise self._exception
+
         if not self._protocol.connected:
             raise RuntimeError("Connection closed.")
 
